@@ -1,7 +1,7 @@
 (** C20 — Length-prefixed record streams decode identically under every chunking.
     This file contains statements only; every proof is [exact <lemma>]. *)
 From RN Require Import Base.Res Codec.Varint Codec.BufReader Codec.VarintBits Codec.VarintProofs
-  Codec.BufReaderProofs.
+  Codec.BufReaderProofs Codec.FileReaderProofs.
 Local Open Scope N_scope.
 
 (** the varint writer and reader agree on every 64-bit value, at every offset, whatever
@@ -44,3 +44,26 @@ Theorem C20_chunking_independent : forall recs pad chunks1 chunks2,
   concat chunks1 = stream recs pad -> concat chunks2 = stream recs pad ->
   feed_drain chunks1 mbr_new = feed_drain chunks2 mbr_new.
 Proof. exact chunking_independent. Qed.
+
+(** FileMessageReader: the k-th record of a stream that starts at offset [length pre] is
+    reported at the sum of the preceding frame lengths with its full frame length, for
+    every record list and every k *)
+Theorem C20_file_reader_positions : forall k recs pad pre b,
+  Forall rec_ok recs -> all_bytes pad -> nth_error recs k = Some b ->
+  let file := pre ++ stream recs pad in
+  let off := (length pre + length (concat (map frame (firstn k recs))))%nat in
+  fmr_read_index_position k (mkFmr file (length pre) (length pre))
+  = Ok ((N.of_nat off, N.of_nat (length (frame b))),
+        mkFmr file (off + length (frame b)) (off + length (frame b))).
+Proof. exact file_reader_positions. Qed.
+
+Theorem C20_file_reader_read_next : forall pre b tail,
+  rec_ok b -> all_bytes tail ->
+  fmr_read_next (mkFmr (pre ++ frame b ++ tail) (length pre) (length pre))
+  = Ok (frame b, mkFmr (pre ++ frame b ++ tail) (length pre + length (frame b)) (length pre + length (frame b))).
+Proof. exact file_reader_read_next. Qed.
+
+(** reading stops at the first zero length and at end of file *)
+Theorem C20_file_reader_end : forall pre pad,
+  pad_ok pad -> fmr_read_len (mkFmr (pre ++ pad) (length pre) (length pre)) = Err.
+Proof. exact file_reader_end. Qed.
